@@ -1,5 +1,5 @@
 (* Proofs for C17 (order object || reference exchange).  Statements are collected in Props/C17.v. *)
-From Coq Require Import ZArith NArith List Bool Lia ZifyBool.
+From Coq Require Import ZArith NArith List Bool Lia ZifyBool FinFun.
 From AF Require Import Base.Sx Py.Str Fix.OrderStatus Fix.Order Fix.Exchange.
 Import ListNotations.
 Open Scope N_scope.
@@ -128,3 +128,521 @@ Qed.
 
 Lemma clord_id_nonempty root k : clord_id_of root k <> [].
 Proof. unfold clord_id_of. destruct root; discriminate. Qed.
+
+(* ================================================================== 3. one method at a time *)
+
+Lemma str_eqb_refl a : str_eqb a a = true.
+Proof. induction a as [|x a IH]; cbn; [reflexivity|]. rewrite N.eqb_refl. exact IH. Qed.
+
+Lemma str_eqb_true a b : str_eqb a b = true -> a = b.
+Proof.
+  revert b. induction a as [|x a IH]; destruct b as [|y b]; cbn; intro H; try discriminate; [reflexivity|].
+  apply andb_prop in H. destruct H as [H1 H2]. apply N.eqb_eq in H1. subst. f_equal. apply IH, H2.
+Qed.
+
+Definition accepts (o : order) (clid : str) : bool :=
+  str_eqb clid (o_clord o) || opt_str_eqb clid (o_orig o).
+
+Definition dflt (a : option Z) (d : Z) : Z := match a with Some v => v | None => d end.
+
+Definition exec_changes (o : order) (e : erep) : bool :=
+  (change_status (o_status o) K_EXECUTIONREPORT (e_ex e) (e_st e) false =? T) && mem (e_st e) all_statuses.
+
+Lemma per_refused o e : accepts o (e_clid e) = false -> process_execution_report o (RExec e) = (o, Exc EFIXError).
+Proof.
+  unfold accepts, process_execution_report. intro H. apply orb_false_elim in H. destruct H as [H1 H2].
+  rewrite H1, H2. reflexivity.
+Qed.
+
+Record exec_post (o : order) (e : erep) (o' : order) : Prop := mkEP {
+  ep_clord : o_clord o' = o_clord o;
+  ep_orig : o_orig o' = if e_ex e =? X_REPLACED then None else o_orig o;
+  ep_oid : o_order_id o' = Some (e_oid e);
+  ep_cum : o_cum o' = e_cum e;
+  ep_leaves : o_leaves o' = e_leaves e;
+  ep_avg : o_avg o' = Some (e_avg e);
+  ep_price : o_price o' = if e_ex e =? X_REPLACED then dflt (e_px e) (o_price o) else o_price o;
+  ep_qty : o_qty o' = if e_ex e =? X_REPLACED then dflt (e_qty e) (o_qty o) else o_qty o;
+  ep_cnt : o_cnt o' = o_cnt o;
+  ep_status : o_status o' = if exec_changes o e then e_st e else o_status o;
+  ep_senum : o_senum o' = if exec_changes o e then true else o_senum o;
+  ep_const : o_ticker o' = o_ticker o /\ o_side o' = o_side o /\ o_ordtype o' = o_ordtype o
+             /\ o_account o' = o_account o /\ o_target o' = o_target o
+}.
+
+Lemma per_accepted o e :
+  accepts o (e_clid e) = true -> exec_post o e (fst (process_execution_report o (RExec e))).
+Proof.
+  unfold accepts, process_execution_report. intro H.
+  replace (negb (str_eqb (e_clid e) (o_clord o)) && negb (opt_str_eqb (e_clid e) (o_orig o))) with false
+    by (destruct (str_eqb _ _), (opt_str_eqb _ _); try reflexivity; discriminate).
+  destruct (change_status (o_status o) K_EXECUTIONREPORT (e_ex e) (e_st e) false =? T) eqn:Hc;
+  destruct (mem (e_st e) all_statuses) eqn:Hm; destruct (e_ex e =? X_REPLACED) eqn:Hx;
+    constructor; unfold exec_changes; rewrite ?Hc, ?Hm, ?Hx; cbn; auto;
+    destruct (e_px e), (e_qty e); reflexivity.
+Qed.
+
+Definition rej_changes (legacy : bool) (o : order) (st : N) : bool :=
+  (change_status (o_status o) K_ORDERCANCELREJECT 0 st false =? T) && (legacy || mem st all_statuses).
+
+Record rej_post (legacy : bool) (o : order) (st : N) (o' : order) : Prop := mkRP {
+  rp_cum : o_cum o' = o_cum o;
+  rp_leaves : o_leaves o' = if st =? REJECTED then 0%Z else o_leaves o;
+  rp_price : o_price o' = o_price o;
+  rp_qty : o_qty o' = o_qty o;
+  rp_avg : o_avg o' = o_avg o;
+  rp_oid : o_order_id o' = o_order_id o;
+  rp_cnt : o_cnt o' = o_cnt o;
+  rp_status : o_status o' = if rej_changes legacy o st then st else o_status o;
+  rp_senum : o_senum o' = if rej_changes legacy o st then negb legacy else o_senum o;
+  rp_ids : if rej_changes legacy o st && negb legacy && truthy (o_orig o)
+           then o_orig o = Some (o_clord o') /\ o_orig o' = None
+           else o_clord o' = o_clord o /\ o_orig o' = o_orig o;
+  rp_const : o_ticker o' = o_ticker o /\ o_side o' = o_side o /\ o_ordtype o' = o_ordtype o
+             /\ o_account o' = o_account o /\ o_target o' = o_target o
+}.
+
+Lemma pcr_post legacy o clid orig st :
+  rej_post legacy o st (fst (process_cancel_rej_report legacy o (RRej clid orig st))).
+Proof.
+  unfold process_cancel_rej_report.
+  destruct (change_status (o_status o) K_ORDERCANCELREJECT 0 st false =? T) eqn:Hc;
+  destruct legacy; destruct (st =? REJECTED) eqn:Hr; destruct (mem st all_statuses) eqn:Hm;
+  destruct (o_orig o) as [[|c x]|] eqn:Ho;
+  constructor; unfold rej_changes; rewrite ?Hc, ?Hm, ?Hr, ?Ho; cbn; rewrite ?Ho; cbn; auto.
+Qed.
+
+(* ---------- builders *)
+Lemma new_req_ok o :
+  o_status o = CREATED ->
+  new_req o = (set_status (set_ids o (snd (clord_next o)) (o_orig o) (fst (clord_next o))) PENDING_NEW true,
+               Ok (RNew (snd (clord_next o)) (o_price o) (o_qty o))).
+Proof. intro H. unfold new_req. rewrite H. reflexivity. Qed.
+
+Lemma cancel_req_ok o :
+  can_cancel o = true -> truthy (o_orig o) = false ->
+  cancel_req o = (set_status (set_ids o (snd (clord_next o)) (Some (o_clord o)) (fst (clord_next o))) PENDING_CANCEL true,
+                  Ok (RCancel (snd (clord_next o)) (o_clord o) (o_qty o))).
+Proof. intros H1 H2. unfold cancel_req. rewrite H1, H2. reflexivity. Qed.
+
+Definition rpl_px (o : order) (p : option Z) : Z := dflt p (o_price o).
+Definition rpl_qty (o : order) (q : option Z) : Z :=
+  match q with Some v => if (v =? 0)%Z then o_qty o else v | None => o_qty o end.
+
+Lemma replace_req_ok o p q :
+  can_replace o = true -> truthy (o_orig o) = false ->
+  ((rpl_px o p =? o_price o)%Z && (rpl_qty o q =? o_qty o)%Z) = false ->
+  replace_req o p q =
+  (set_status (set_ids o (snd (clord_next o)) (Some (o_clord o)) (fst (clord_next o))) PENDING_REPLACE true,
+   Ok (RReplace (snd (clord_next o)) (o_clord o) (rpl_px o p) (rpl_qty o q))).
+Proof.
+  intros H1 H2 H3. unfold replace_req. rewrite H1. cbn [negb].
+  unfold rpl_px, rpl_qty, dflt in H3. rewrite H3, H2. reflexivity.
+Qed.
+
+(* a builder that raises leaves the object untouched; one that succeeds needs its gate *)
+Lemma new_req_cases o :
+  (exists e, new_req o = (o, Exc e)) \/
+  (o_status o = CREATED /\ exists r, snd (new_req o) = Ok r).
+Proof.
+  unfold new_req. destruct (o_status o =? CREATED) eqn:H; cbn [negb].
+  - right. apply N.eqb_eq in H. split; [exact H|]. eexists. reflexivity.
+  - left. eexists. reflexivity.
+Qed.
+Lemma cancel_req_cases o :
+  (exists e, cancel_req o = (o, Exc e)) \/
+  (can_cancel o = true /\ truthy (o_orig o) = false).
+Proof.
+  unfold cancel_req. destruct (can_cancel o); cbn [negb]; [|left; eexists; reflexivity].
+  destruct (truthy (o_orig o)); [left; eexists; reflexivity| right; auto].
+Qed.
+Lemma replace_req_cases o p q :
+  (exists e, replace_req o p q = (o, Exc e)) \/
+  (can_replace o = true /\ truthy (o_orig o) = false /\
+   ((rpl_px o p =? o_price o)%Z && (rpl_qty o q =? o_qty o)%Z) = false).
+Proof.
+  unfold replace_req. destruct (can_replace o); cbn [negb]; [|left; eexists; reflexivity].
+  fold (dflt p (o_price o)). fold (rpl_px o p). fold (rpl_qty o q).
+  destruct ((rpl_px o p =? o_price o)%Z && (rpl_qty o q =? o_qty o)%Z); [left; eexists; reflexivity|].
+  destruct (truthy (o_orig o)); [left; eexists; reflexivity| right; auto].
+Qed.
+
+(* what the gates mean *)
+Lemma can_cancel_iff st : OrderStatus.can_cancel st = true <-> (st = NEW \/ st = PARTIALLY_FILLED \/ st = SUSPENDED).
+Proof.
+  unfold OrderStatus.can_cancel, change_status, request, mem.
+  cbn [existsb K_ORDERCANCELREQUEST K_EXECUTIONREPORT K_ORDERCANCELREJECT].
+  change (70 =? 56) with false. change (70 =? 57) with false. change (70 =? 70) with true. cbn [orb negb andb].
+  split.
+  - destruct (st =? PENDING_CANCEL) eqn:E1; [cbn; discriminate|].
+    destruct (st =? PENDING_REPLACE) eqn:E2; [cbn; discriminate|]. cbn [orb].
+    destruct (st =? NEW) eqn:E3; [apply N.eqb_eq in E3; auto|].
+    destruct (st =? SUSPENDED) eqn:E4; [apply N.eqb_eq in E4; auto|].
+    destruct (st =? PARTIALLY_FILLED) eqn:E5; [apply N.eqb_eq in E5; auto|]. cbn. discriminate.
+  - intros [H|[H|H]]; subst; reflexivity.
+Qed.
+Lemma can_replace_eq st : OrderStatus.can_replace st = OrderStatus.can_cancel st.
+Proof.
+  unfold OrderStatus.can_replace, OrderStatus.can_cancel, change_status. reflexivity.
+Qed.
+
+Lemma is_finished_iff st : OrderStatus.is_finished st = true <-> (st = FILLED \/ st = CANCELED \/ st = REJECTED \/ st = EXPIRED).
+Proof.
+  unfold OrderStatus.is_finished, mem. cbn [existsb]. rewrite !orb_true_iff, !N.eqb_eq. intuition discriminate.
+Qed.
+
+(* ================================================================== 4. the object under any operation sequence *)
+
+Inductive cop := CNew | CCancel | CReplace (p q : option Z) | CRep (r : rep).
+
+Definition obuild (o : order) (c : cop) : option (order * res req) :=
+  match c with
+  | CNew => Some (new_req o)
+  | CCancel => Some (cancel_req o)
+  | CReplace p q => Some (replace_req o p q)
+  | CRep _ => None
+  end.
+
+Definition ostep (legacy : bool) (o : order) (c : cop) : order :=
+  match c with
+  | CRep r => fst (process_report legacy o r)
+  | _ => match obuild o c with Some ob => fst ob | None => o end
+  end.
+Definition orun (legacy : bool) (o : order) (cs : list cop) : order := fold_left (ostep legacy) cs o.
+
+(* the request built by one operation, if any *)
+Definition built (o : order) (c : cop) : option req :=
+  match obuild o c with Some (_, Ok r) => Some r | _ => None end.
+Definition req_id (r : req) : str :=
+  match r with RNew id _ _ => id | RCancel id _ _ => id | RReplace id _ _ _ => id end.
+
+Lemma build_cases o c ob :
+  obuild o c = Some ob ->
+  (exists e, ob = (o, Exc e)) \/
+  (exists r, snd ob = Ok r /\ req_id r = snd (clord_next o) /\
+     fst ob = set_status (set_ids o (snd (clord_next o))
+                                  (match c with CNew => o_orig o | _ => Some (o_clord o) end) (fst (clord_next o)))
+                         (match c with CNew => PENDING_NEW | CCancel => PENDING_CANCEL | _ => PENDING_REPLACE end) true /\
+     match c with
+     | CNew => o_status o = CREATED
+     | _ => OrderStatus.can_cancel (o_status o) = true /\ truthy (o_orig o) = false
+     end /\
+     match r with
+     | RNew _ px qty => c = CNew /\ px = o_price o /\ qty = o_qty o
+     | RCancel _ orig qty => c = CCancel /\ orig = o_clord o /\ qty = o_qty o
+     | RReplace _ orig px qty => (exists p q, c = CReplace p q /\ px = rpl_px o p /\ qty = rpl_qty o q
+                                              /\ (px <> o_price o \/ qty <> o_qty o)) /\ orig = o_clord o
+     end).
+Proof.
+  destruct c as [| |p q|r]; cbn [obuild]; intro H; inversion H; subst; clear H.
+  - destruct (new_req_cases o) as [[e He]|[Hs _]]; [left; eauto|]. right.
+    rewrite (new_req_ok o Hs). eexists. cbn. repeat split; auto.
+  - destruct (cancel_req_cases o) as [[e He]|[Hc Ht]]; [left; eauto|]. right.
+    rewrite (cancel_req_ok o Hc Ht). eexists. cbn. repeat split; auto.
+  - destruct (replace_req_cases o p q) as [[e He]|[Hc [Ht Hn]]]; [left; eauto|]. right.
+    rewrite (replace_req_ok o p q Hc Ht Hn). eexists. cbn [fst snd req_id].
+    unfold can_replace in Hc. rewrite can_replace_eq in Hc.
+    split; [reflexivity|]. split; [reflexivity|]. split; [reflexivity|]. split; [auto|].
+    split; [|reflexivity].
+    exists p, q. split; [reflexivity|]. split; [reflexivity|]. split; [reflexivity|].
+    apply andb_false_iff in Hn. destruct Hn as [Hn|Hn]; apply Z.eqb_neq in Hn; auto.
+Qed.
+
+(* ---------- 4a. the status is an enum member (repaired code) *)
+Definition senum_ok (o : order) : Prop := o_senum o = true /\ mem (o_status o) all_statuses = true.
+
+Lemma ostep_build legacy o c ob : obuild o c = Some ob -> ostep legacy o c = fst ob.
+Proof. destruct c; cbn [obuild ostep]; intro H; inversion H; reflexivity. Qed.
+
+Lemma senum_build o c ob : obuild o c = Some ob -> senum_ok o -> senum_ok (fst ob).
+Proof.
+  intros Hb [H1 H2]. destruct (build_cases o c ob Hb) as [[e He]|[r [_ [_ [Hf _]]]]].
+  - subst ob. split; assumption.
+  - rewrite Hf. destruct c; split; reflexivity.
+Qed.
+
+Lemma senum_step o c : senum_ok o -> senum_ok (ostep false o c).
+Proof.
+  intros H. destruct (obuild o c) as [ob|] eqn:Hb.
+  { rewrite (ostep_build false o c ob Hb). eapply senum_build; eauto. }
+  destruct c as [| |p q|r]; try discriminate. destruct H as [H1 H2].
+  cbn [ostep]. destruct r as [e|clid orig st]; cbn [process_report].
+  - destruct (accepts o (e_clid e)) eqn:Ha.
+    + destruct (per_accepted o e Ha) as [_ _ _ _ _ _ _ _ _ Hst Hen _]. unfold senum_ok. rewrite Hst, Hen.
+      unfold exec_changes. destruct (_ =? T); cbn [andb]; [|auto].
+      destruct (mem (e_st e) all_statuses) eqn:Hm; auto.
+    + rewrite (per_refused o e Ha). split; assumption.
+  - destruct (pcr_post false o clid orig st) as [_ _ _ _ _ _ _ Hst Hen _ _]. unfold senum_ok. rewrite Hst, Hen.
+    unfold rej_changes. destruct (_ =? T); cbn [andb orb negb]; [|auto].
+    destruct (mem st all_statuses) eqn:Hm; auto.
+Qed.
+
+Lemma senum_run cs : forall o, senum_ok o -> senum_ok (orun false o cs).
+Proof. induction cs as [|c cs IH]; intros o H; [exact H|]. apply IH, senum_step, H. Qed.
+
+(* ---------- 4b. the status is the fold of change_status over what happened *)
+Inductive ev := EvNew | EvCancel | EvReplace | EvExec (ex st : N) | EvRej (st : N).
+
+Definition ev_status (st : N) (e : ev) : N :=
+  match e with
+  | EvNew => PENDING_NEW
+  | EvCancel => PENDING_CANCEL
+  | EvReplace => PENDING_REPLACE
+  | EvExec ex ms => if change_status st K_EXECUTIONREPORT ex ms false =? T then ms else st
+  | EvRej ms => if change_status st K_ORDERCANCELREJECT 0 ms false =? T then ms else st
+  end.
+
+(* the event of one operation: a request that was built, an execution report that passed the
+   ClOrdID check, a cancel reject (reports whose status is no enum member raise ValueError in
+   FOrdStatus(..) and change nothing; the legacy reject handler stores any text) *)
+Definition ev_of (legacy : bool) (o : order) (c : cop) : option ev :=
+  match c with
+  | CRep (RExec e) => if accepts o (e_clid e) && mem (e_st e) all_statuses then Some (EvExec (e_ex e) (e_st e)) else None
+  | CRep (RRej _ _ st) => if legacy || mem st all_statuses then Some (EvRej st) else None
+  | _ => match built o c with
+         | Some (RNew _ _ _) => Some EvNew
+         | Some (RCancel _ _ _) => Some EvCancel
+         | Some (RReplace _ _ _ _) => Some EvReplace
+         | None => None
+         end
+  end.
+
+Fixpoint events (legacy : bool) (o : order) (cs : list cop) : list ev :=
+  match cs with
+  | [] => []
+  | c :: cs' =>
+      match ev_of legacy o c with
+      | Some e => e :: events legacy (ostep legacy o c) cs'
+      | None => events legacy (ostep legacy o c) cs'
+      end
+  end.
+
+Lemma status_step legacy o c :
+  o_status (ostep legacy o c) = match ev_of legacy o c with Some e => ev_status (o_status o) e | None => o_status o end.
+Proof.
+  destruct (obuild o c) as [ob|] eqn:Hb.
+  { rewrite (ostep_build legacy o c ob Hb).
+    assert (Hev : ev_of legacy o c = match built o c with
+         | Some (RNew _ _ _) => Some EvNew | Some (RCancel _ _ _) => Some EvCancel
+         | Some (RReplace _ _ _ _) => Some EvReplace | None => None end)
+      by (destruct c; try discriminate; reflexivity).
+    rewrite Hev. unfold built. rewrite Hb.
+    destruct (build_cases o c ob Hb) as [[e He]|[r [Hr [_ [Hf [_ Hk]]]]]].
+    - subst ob. reflexivity.
+    - destruct ob as [o' rr]. cbn [fst snd] in *. subst rr. rewrite Hf.
+      destruct r.
+      + destruct Hk as [Hk _]. subst c. reflexivity.
+      + destruct Hk as [Hk _]. subst c. reflexivity.
+      + destruct Hk as [[p [q [Hk _]]] _]. subst c. reflexivity. }
+  destruct c as [| |p q|r]; try discriminate.
+  cbn [ostep ev_of]. destruct r as [e|clid orig st]; cbn [process_report].
+  + destruct (accepts o (e_clid e)) eqn:Ha; cbn [andb].
+    * destruct (per_accepted o e Ha) as [_ _ _ _ _ _ _ _ _ Hst _ _]. rewrite Hst. unfold exec_changes.
+      destruct (mem (e_st e) all_statuses); cbn [ev_status]; destruct (_ =? T); reflexivity.
+    * rewrite (per_refused o e Ha). reflexivity.
+  + destruct (pcr_post legacy o clid orig st) as [_ _ _ _ _ _ _ Hst _ _ _]. rewrite Hst. unfold rej_changes.
+    destruct (legacy || mem st all_statuses); cbn [ev_status]; destruct (_ =? T); reflexivity.
+Qed.
+
+Lemma status_fold legacy cs : forall o,
+  o_status (orun legacy o cs) = fold_left ev_status (events legacy o cs) (o_status o).
+Proof.
+  induction cs as [|c cs IH]; intro o; [reflexivity|].
+  cbn [orun fold_left events]. fold (orun legacy (ostep legacy o c) cs). rewrite IH, status_step.
+  destruct (ev_of legacy o c); reflexivity.
+Qed.
+
+(* ---------- 4c. quantities follow the last report, price / qty change exactly on REPLACED *)
+Record ghost := mkG { g_last : option erep; g_px : Z; g_qty : Z; g_zeroed : bool }.
+
+Definition gstep (o : order) (g : ghost) (c : cop) : ghost :=
+  match c with
+  | CRep (RExec e) =>
+      if accepts o (e_clid e) then
+        mkG (Some e)
+            (if e_ex e =? X_REPLACED then dflt (e_px e) (g_px g) else g_px g)
+            (if e_ex e =? X_REPLACED then dflt (e_qty e) (g_qty g) else g_qty g) false
+      else g
+  | CRep (RRej _ _ st) => if st =? REJECTED then mkG (g_last g) (g_px g) (g_qty g) true else g
+  | _ => g
+  end.
+
+Fixpoint grun (legacy : bool) (o : order) (g : ghost) (cs : list cop) : ghost :=
+  match cs with
+  | [] => g
+  | c :: cs' => grun legacy (ostep legacy o c) (gstep o g c) cs'
+  end.
+
+Definition follows (o : order) (g : ghost) : Prop :=
+  o_price o = g_px g /\ o_qty o = g_qty g /\
+  match g_last g with
+  | Some e => o_cum o = e_cum e /\ o_avg o = Some (e_avg e) /\ o_order_id o = Some (e_oid e)
+              /\ o_leaves o = (if g_zeroed g then 0%Z else e_leaves e)
+  | None => (g_zeroed g = true -> o_leaves o = 0%Z)
+  end.
+
+Lemma follows_step legacy o g c : follows o g -> follows (ostep legacy o c) (gstep o g c).
+Proof.
+  intros (Hp & Hq & Hl).
+  destruct (obuild o c) as [ob|] eqn:Hb.
+  { rewrite (ostep_build legacy o c ob Hb).
+    replace (gstep o g c) with g by (destruct c; try discriminate; reflexivity).
+    destruct (build_cases o c ob Hb) as [[e He]|[r [_ [_ [Hf _]]]]].
+    - subst ob. repeat split; assumption.
+    - rewrite Hf. unfold follows. cbn. repeat split; assumption. }
+  destruct c as [| |p q|r]; try discriminate.
+  cbn [ostep gstep]. destruct r as [e|clid orig st]; cbn [process_report].
+  - destruct (accepts o (e_clid e)) eqn:Ha.
+    + destruct (per_accepted o e Ha) as [_ _ Hoid Hcum Hlv Havg Hpx Hqty _ _ _ _].
+      unfold follows. cbn [g_px g_qty g_last g_zeroed]. rewrite Hpx, Hqty, Hp, Hq.
+      repeat split; try assumption; reflexivity.
+    + rewrite (per_refused o e Ha). repeat split; assumption.
+  - destruct (pcr_post legacy o clid orig st) as [Hcum Hlv Hpx Hqty Havg Hoid _ _ _ _ _].
+    unfold follows. rewrite Hpx, Hqty, Hcum, Havg, Hoid, Hlv.
+    destruct (st =? REJECTED); cbn [g_px g_qty g_last g_zeroed].
+    + split; [assumption|]. split; [assumption|]. destruct (g_last g); [|auto]. tauto.
+    + split; [assumption|]. split; [assumption|]. exact Hl.
+Qed.
+
+Lemma follows_run legacy cs : forall o g, follows o g -> follows (orun legacy o cs) (grun legacy o g cs).
+Proof.
+  induction cs as [|c cs IH]; intros o g H; [exact H|]. cbn [orun fold_left grun].
+  apply IH, follows_step, H.
+Qed.
+
+(* ---------- 4d. a finished order refuses every request and ignores every execution report *)
+Lemma finished_refuses o :
+  is_finished o = true ->
+  (exists e, new_req o = (o, Exc e)) /\ (exists e, cancel_req o = (o, Exc e))
+  /\ (forall p q, exists e, replace_req o p q = (o, Exc e)).
+Proof.
+  unfold is_finished. intro H. apply is_finished_iff in H.
+  assert (Hc : OrderStatus.can_cancel (o_status o) = false).
+  { destruct (OrderStatus.can_cancel (o_status o)) eqn:E; [|reflexivity].
+    apply can_cancel_iff in E. destruct H as [H|[H|[H|H]]], E as [E|[E|E]]; rewrite H in E; discriminate. }
+  split; [|split].
+  - destruct (new_req_cases o) as [He|[Hs _]]; [exact He|].
+    destruct H as [H|[H|[H|H]]]; rewrite H in Hs; discriminate.
+  - destruct (cancel_req_cases o) as [He|[Hs _]]; [exact He|]. unfold can_cancel in Hs. congruence.
+  - intros p q. destruct (replace_req_cases o p q) as [He|[Hs _]]; [exact He|].
+    unfold can_replace in Hs. rewrite can_replace_eq in Hs. congruence.
+Qed.
+
+Lemma finished_absorbs o e :
+  is_finished o = true ->
+  o_status (fst (process_execution_report o (RExec e))) = o_status o.
+Proof.
+  unfold is_finished. intro H.
+  destruct (accepts o (e_clid e)) eqn:Ha; [|rewrite (per_refused o e Ha); reflexivity].
+  destruct (per_accepted o e Ha) as [_ _ _ _ _ _ _ _ _ Hst _ _]. rewrite Hst.
+  unfold exec_changes, change_status. change (K_EXECUTIONREPORT =? K_EXECUTIONREPORT) with true. cbv iota.
+  assert (Hx : exec_report (o_status o) (e_ex e) (e_st e) = IGN).
+  { apply is_finished_iff in H. destruct H as [H|[H|[H|H]]]; rewrite H; reflexivity. }
+  rewrite Hx. reflexivity.
+Qed.
+
+(* ---------- 4e. the ClOrdID chain: one root, strictly increasing counter, fresh ids *)
+Definition owf (R : str) (o : order) : Prop :=
+  R <> [] /\ clord_root (o_clord o) = R /\ o_clord o <> [] /\
+  (forall x, o_orig o = Some x -> truthy (Some x) = true -> clord_root x = R /\ x <> []).
+
+Lemma owf_step legacy R o c : owf R o -> owf R (ostep legacy o c).
+Proof.
+  intros (HR & Hroot & Hne & Horig).
+  destruct (obuild o c) as [ob|] eqn:Hb.
+  { rewrite (ostep_build legacy o c ob Hb).
+    destruct (build_cases o c ob Hb) as [[e He]|[r [_ [_ [Hf _]]]]].
+    - subst ob. exact (conj HR (conj Hroot (conj Hne Horig))).
+    - rewrite Hf. unfold clord_next. cbn [fst snd]. rewrite Hroot.
+      split; [exact HR|]. cbn [set_status set_ids o_clord o_orig].
+      split; [apply clord_root_next, HR|]. split; [apply clord_id_nonempty|].
+      destruct c; try discriminate; cbn; intros x Hx Ht; inversion Hx; subst; auto. }
+  destruct c as [| |p q|r]; try discriminate.
+  cbn [ostep]. destruct r as [e|clid orig st]; cbn [process_report].
+  - destruct (accepts o (e_clid e)) eqn:Ha.
+    + destruct (per_accepted o e Ha) as [Hcl Hor _ _ _ _ _ _ _ _ _ _].
+      unfold owf. rewrite Hcl, Hor. split; [exact HR|]. split; [exact Hroot|]. split; [exact Hne|].
+      destruct (e_ex e =? X_REPLACED); [discriminate|]. exact Horig.
+    + rewrite (per_refused o e Ha). exact (conj HR (conj Hroot (conj Hne Horig))).
+  - destruct (pcr_post legacy o clid orig st) as [_ _ _ _ _ _ _ _ _ Hids _].
+    destruct (rej_changes legacy o st && negb legacy && truthy (o_orig o)) eqn:Hc.
+    + destruct Hids as [H1 H2]. apply andb_prop in Hc. destruct Hc as [_ Ht].
+      rewrite H1 in Ht. destruct (Horig _ H1 Ht) as [Hr Hn].
+      unfold owf. rewrite H2. split; [exact HR|]. split; [exact Hr|]. split; [exact Hn|]. discriminate.
+    + destruct Hids as [H1 H2]. unfold owf. rewrite H1, H2. exact (conj HR (conj Hroot (conj Hne Horig))).
+Qed.
+
+Lemma owf_run legacy R cs : forall o, owf R o -> owf R (orun legacy o cs).
+Proof. induction cs as [|c cs IH]; intros o H; [exact H|]. apply IH, owf_step, H. Qed.
+
+Fixpoint nseq (a : N) (n : nat) : list N :=
+  match n with O => [] | S n' => a :: nseq (a + 1) n' end.
+
+Fixpoint ids_run (legacy : bool) (o : order) (cs : list cop) : list str :=
+  match cs with
+  | [] => []
+  | c :: cs' =>
+      match built o c with
+      | Some r => req_id r :: ids_run legacy (ostep legacy o c) cs'
+      | None => ids_run legacy (ostep legacy o c) cs'
+      end
+  end.
+
+Lemma cnt_step legacy o c :
+  o_cnt (ostep legacy o c) = match built o c with Some _ => o_cnt o + 1 | None => o_cnt o end.
+Proof.
+  unfold built. destruct (obuild o c) as [ob|] eqn:Hb.
+  { rewrite (ostep_build legacy o c ob Hb).
+    destruct (build_cases o c ob Hb) as [[e He]|[r [Hr [_ [Hf _]]]]].
+    - subst ob. reflexivity.
+    - destruct ob as [o' rr]. cbn [fst snd] in *. subst rr. rewrite Hf. reflexivity. }
+  destruct c as [| |p q|r]; try discriminate. cbn [ostep].
+  destruct r as [e|clid orig st]; cbn [process_report].
+  - destruct (accepts o (e_clid e)) eqn:Ha.
+    + destruct (per_accepted o e Ha). assumption.
+    + rewrite (per_refused o e Ha). reflexivity.
+  - destruct (pcr_post legacy o clid orig st). assumption.
+Qed.
+
+Lemma ids_chain legacy R cs : forall o,
+  owf R o ->
+  ids_run legacy o cs = map (clord_id_of R) (nseq (o_cnt o + 1) (length (ids_run legacy o cs))).
+Proof.
+  induction cs as [|c cs IH]; intros o Hw; [reflexivity|].
+  cbn [ids_run]. pose proof (owf_step legacy R o c Hw) as Hw'. pose proof (cnt_step legacy o c) as Hc.
+  destruct (built o c) as [r|] eqn:Hb.
+  - cbn [length nseq map]. f_equal.
+    + unfold built in Hb. destruct (obuild o c) as [ob|] eqn:Hob; [|discriminate].
+      destruct (build_cases o c ob Hob) as [[e He]|[r' [Hr [Hid _]]]].
+      * subst ob. discriminate.
+      * destruct ob as [o' rr]. cbn [snd] in Hr. subst rr. inversion Hb; subst r'. rewrite Hid.
+        unfold clord_next. cbn [snd]. destruct Hw as (_ & Hroot & _). rewrite Hroot. reflexivity.
+    + rewrite <- Hc. apply IH, Hw'.
+  - rewrite <- Hc. apply IH, Hw'.
+Qed.
+
+Lemma nseq_lt a n k : In k (nseq a n) -> a <= k.
+Proof. revert a. induction n as [|n IH]; intros a; cbn; [tauto|]. intros [H|H]; [lia|]. apply IH in H. lia. Qed.
+
+Lemma nseq_nodup a n : NoDup (nseq a n).
+Proof.
+  revert a. induction n as [|n IH]; intro a; cbn; constructor; [|apply IH].
+  intro H. apply nseq_lt in H. lia.
+Qed.
+
+Lemma ids_fresh legacy R cs o : owf R o -> NoDup (ids_run legacy o cs).
+Proof.
+  intro Hw. rewrite (ids_chain legacy R cs o Hw).
+  apply FinFun.Injective_map_NoDup; [|apply nseq_nodup].
+  intros a b H. eapply clord_id_inj, H.
+Qed.
+
+Lemma init_owf clord ticker side price qty ordtype account target o :
+  init_order clord ticker side price qty ordtype account target = Ok o ->
+  owf (clord_root clord) o /\ senum_ok o /\ o_status o = CREATED /\ o_cnt o = 0 /\ o_orig o = None
+  /\ o_cum o = 0%Z /\ o_leaves o = 0%Z /\ o_price o = price /\ o_qty o = qty /\ o_clord o = clord.
+Proof.
+  unfold init_order. destruct clord as [|c s]; [discriminate|]. intro H. inversion H; subst; clear H.
+  cbn. repeat split; try discriminate; try reflexivity.
+  - apply clord_root_nonempty. discriminate.
+Qed.
